@@ -24,16 +24,32 @@ class UnitBase:
 
 
 class Unit(UnitBase):
-    def __init__(self, name, scale=None, dims=None):
-        if scale is None and dims is None:
+    """scale to SI = num * pi**pipow with concrete rational `num` and integer `pipow` (so that unit comparisons are concrete)"""
+
+    def __init__(self, name, num=None, dims=None, pipow=0):
+        if num is None and dims is None:
             other = _lookup(name)
             self.name = other.name
-            self.scale = other.scale
+            self.num = other.num
+            self.pipow = other.pipow
             self.dims = other.dims
         else:
             self.name = name
-            self.scale = scale
+            self.num = num
+            self.pipow = pipow
             self.dims = dims
+
+    @property
+    def scale(self):
+        if self.pipow == 0:
+            return self.num
+        if self.pipow > 0:
+            return self.num * PI ** self.pipow
+        return self.num / PI ** (-self.pipow)
+
+    @property
+    def is_si(self):
+        return self.num == 1 and self.pipow == 0
 
     @property
     def physical_type(self):
@@ -57,7 +73,7 @@ class Unit(UnitBase):
             other = _lookup(other)
         if not isinstance(other, Unit):
             return False
-        return self.dims == other.dims and self.scale == other.scale
+        return self.dims == other.dims and self.num == other.num and self.pipow == other.pipow
 
     def __ne__(self, other):
         return not self == other
@@ -65,10 +81,20 @@ class Unit(UnitBase):
     def __hash__(self):
         return 0
 
+    def _times(self, other, sign):
+        n = len(self.dims) if len(self.dims) > len(other.dims) else len(other.dims)
+        a = tuple(self.dims) + (0,) * (n - len(self.dims))
+        b = tuple(other.dims) + (0,) * (n - len(other.dims))
+        dims = tuple(a[i] + sign * b[i] for i in range(n))
+        while len(dims) > 2 and dims[-1] == 0:
+            dims = dims[:-1]
+        if sign > 0:
+            return Unit(self.name + ' ' + other.name, self.num * other.num, dims, self.pipow + other.pipow)
+        return Unit(self.name + ' / ' + other.name, self.num / other.num, dims, self.pipow - other.pipow)
+
     def __mul__(self, other):
         if isinstance(other, Unit):
-            return Unit(self.name + ' ' + other.name, self.scale * other.scale,
-                        (self.dims[0] + other.dims[0], self.dims[1] + other.dims[1]))
+            return self._times(other, 1)
         if isinstance(other, Quantity):
             return Quantity._from_si(other.si * self.scale, other.unit * self)
         return Quantity(other, self)
@@ -80,20 +106,19 @@ class Unit(UnitBase):
 
     def __truediv__(self, other):
         if isinstance(other, Unit):
-            return Unit(self.name + ' / ' + other.name, self.scale / other.scale,
-                        (self.dims[0] - other.dims[0], self.dims[1] - other.dims[1]))
+            return self._times(other, -1)
         if isinstance(other, Quantity):
             return Quantity._from_si(self.scale / other.si, self / other.unit)
         return Quantity(1 / other, self)
 
     def __rtruediv__(self, other):
-        inv = Unit('1 / ' + self.name, 1 / self.scale, (-self.dims[0], -self.dims[1]))
+        inv = dimensionless_unscaled._times(self, -1)
         if isinstance(other, Quantity):
             return other * inv
         return Quantity(other, inv)
 
     def __pow__(self, p):
-        return Unit(self.name + '**' + str(p), self.scale ** p, (self.dims[0] * p, self.dims[1] * p))
+        return Unit(self.name + '**' + str(p), self.num ** p, tuple(d * p for d in self.dims), self.pipow * p)
 
     def __rlshift__(self, other):
         return Quantity(other, self)
@@ -110,21 +135,21 @@ class Unit(UnitBase):
         return value * self.scale / other.scale
 
 
+dimensionless_unscaled = Unit('', 1, (0, 0))
+one = dimensionless_unscaled
 rad = Unit('rad', 1, (1, 0))
 radian = rad
-deg = Unit('deg', PI / 180, (1, 0))
+deg = Unit('deg', 1 / 180, (1, 0), 1)
 degree = deg
-arcmin = Unit('arcmin', PI / 10800, (1, 0))
+arcmin = Unit('arcmin', 1 / 10800, (1, 0), 1)
 arcminute = arcmin
-arcsec = Unit('arcsec', PI / 648000, (1, 0))
+arcsec = Unit('arcsec', 1 / 648000, (1, 0), 1)
 arcsecond = arcsec
-hourangle = Unit('hourangle', PI / 12, (1, 0))
+hourangle = Unit('hourangle', 1 / 12, (1, 0), 1)
 hour = Unit('h', 3600, (0, 0, 1))
 pix = Unit('pix', 1, (0, 1))
 pixel = pix
-dimensionless_unscaled = Unit('', 1, (0, 0))
-one = dimensionless_unscaled
-mas = Unit('mas', PI / 648000000, (1, 0))
+mas = Unit('mas', 1 / 648000000, (1, 0), 1)
 m = Unit('m', 1, (0, 0, 0, 1))
 GHz = Unit('GHz', 1000000000, (0, 0, -1))
 km = Unit('km', 1000, (0, 0, 0, 1))
@@ -183,7 +208,7 @@ class Quantity:
             raise TypeError('The value must be a valid Python or Numpy numeric type.')
         if isinstance(value, bool):
             value = int(value)
-        if unit.scale == 1 or vprim.is_nonfinite(value):
+        if unit.is_si or vprim.is_nonfinite(value):
             self.si = value          # nan / +-inf are unaffected by a (positive) unit scale
         else:
             self.si = value * unit.scale
@@ -198,7 +223,7 @@ class Quantity:
 
     @property
     def value(self):
-        if self.unit.scale == 1 or vprim.is_nonfinite(self.si):
+        if self.unit.is_si or vprim.is_nonfinite(self.si):
             return self.si
         return self.si / self.unit.scale
 
@@ -313,7 +338,7 @@ class Quantity:
         return self.__truediv__(other)
 
     def __rtruediv__(self, other):
-        inv = Unit('1 / ' + self.unit.name, 1 / self.unit.scale, (-self.unit.dims[0], -self.unit.dims[1]))
+        inv = dimensionless_unscaled._times(self.unit, -1)
         return Quantity._from_si(other / self.si, inv)
 
     def __pow__(self, p):
